@@ -586,7 +586,7 @@ fn run_scenario(which: usize, acc: &mut Acc) {
 
 pub fn run(r: &mut Report) {
     let mut rng = Rng::new(r.seed ^ 0xC18);
-    let nscripts = if r.quick() { 400 } else { 20_000 };
+    let nscripts = if r.quick() { 3000 } else { 20_000 };
     let mut scripts: Vec<(Vec<SOp>, usize, usize, usize, u64)> = vec![];
     for i in 0..nscripts {
         let nclients = 2 + i % 3;
@@ -609,9 +609,9 @@ pub fn run(r: &mut Report) {
     // (B) scheduled blocking programs, both fairness modes, against the reference model
     let plan = super::families::Plan {
         families: vec![Family::Sem],
-        n_tiny: if r.quick() { 10 } else { 100 },
-        n_small: if r.quick() { 10 } else { 100 },
-        n_sampled: if r.quick() { 6 } else { 60 },
+        n_tiny: if r.quick() { 30 } else { 100 },
+        n_small: if r.quick() { 30 } else { 100 },
+        n_sampled: if r.quick() { 12 } else { 60 },
         enum_cap: if r.quick() { 8_000 } else { 200_000 },
         sample_iters: if r.quick() { 1_000 } else { 20_000 },
         judge_completeness: false,
